@@ -9,6 +9,7 @@ import (
 	"strings"
 
 	"golang.org/x/tools/go/cfg"
+	"golang.org/x/tools/go/ssa"
 )
 
 const natPkg = "pkg/core/native"
@@ -617,4 +618,355 @@ func ruleCacheRO(c *Ctx) {
 	}
 	sort.Strings(ms)
 	c.Note("functions writing through a cache parameter: %s", strings.Join(ms, " "))
+}
+
+// ---------------------------------------------------------------------------
+// cache-key-shape: all accessors of one cache map use keys of the same shape
+
+// prefixedKeyBuilders: functions of the package returning a []byte whose element 0 is set to a prefix.
+func prefixedKeyBuilders(c *Ctx, rel string) map[*types.Func]bool {
+	out := map[*types.Func]bool{}
+	pk := c.P.Pkg(rel)
+	for _, fd := range c.P.AllFuncDecls() {
+		if fd.Pkg != pk || fd.Decl.Body == nil {
+			continue
+		}
+		sig := fd.Obj.Type().(*types.Signature)
+		if sig.Results().Len() != 1 {
+			continue
+		}
+		if sl, ok := sig.Results().At(0).Type().Underlying().(*types.Slice); !ok || sl.Elem().String() != "byte" {
+			continue
+		}
+		sets0 := false
+		ast.Inspect(fd.Decl.Body, func(n ast.Node) bool {
+			if as, ok := n.(*ast.AssignStmt); ok {
+				for _, l := range as.Lhs {
+					if ix, ok := ast.Unparen(l).(*ast.IndexExpr); ok {
+						if tv := pk.TypesInfo.Types[ix.Index]; tv.Value != nil && tv.Value.String() == "0" {
+							sets0 = true
+						}
+					}
+				}
+			}
+			return true
+		})
+		// or delegates to another builder
+		if !sets0 {
+			ast.Inspect(fd.Decl.Body, func(n ast.Node) bool {
+				if rs, ok := n.(*ast.ReturnStmt); ok && len(rs.Results) == 1 {
+					if call, ok := ast.Unparen(rs.Results[0]).(*ast.CallExpr); ok {
+						if id, ok := call.Fun.(*ast.Ident); ok {
+							if fo, ok := pk.TypesInfo.ObjectOf(id).(*types.Func); ok && out[fo] {
+								sets0 = true
+							}
+						}
+					}
+				}
+				return true
+			})
+		}
+		if sets0 {
+			out[fd.Obj] = true
+		}
+	}
+	return out
+}
+
+func ruleCacheKeyShape(c *Ctx) {
+	pk := c.P.Pkg(natPkg)
+	if pk == nil {
+		c.Lost("anchor", "package native not found")
+		return
+	}
+	cts := cacheTypes(c)
+	builders := prefixedKeyBuilders(c, natPkg)
+	c.Floor("prefixed key builders", len(builders), 5)
+	type acc struct {
+		pos   token.Pos
+		shape string
+		expr  string
+		fn    string
+	}
+	accs := map[string][]acc{} // "Type.field" -> accessors
+	for _, fd := range c.P.AllFuncDecls() {
+		if fd.Pkg != pk || fd.Decl.Body == nil {
+			continue
+		}
+		f := c.P.NewFuncCFG(fd)
+		classify := func(key ast.Expr) string {
+			k := ast.Unparen(key)
+			// string(x) conversion
+			if call, ok := k.(*ast.CallExpr); ok && len(call.Args) == 1 {
+				if tv, ok := pk.TypesInfo.Types[call.Fun]; ok && tv.IsType() {
+					k = ast.Unparen(call.Args[0])
+				}
+			}
+			if se, ok := k.(*ast.SliceExpr); ok && se.Low != nil {
+				if tv := pk.TypesInfo.Types[se.Low]; tv.Value != nil && tv.Value.String() != "0" {
+					return "stripped"
+				}
+			}
+			// whole result of a prefixed key builder (directly or through a local defined once from it)
+			isBuilderCall := func(e ast.Expr) bool {
+				call, ok := ast.Unparen(e).(*ast.CallExpr)
+				if !ok {
+					return false
+				}
+				var fo *types.Func
+				switch fn := ast.Unparen(call.Fun).(type) {
+				case *ast.Ident:
+					fo, _ = pk.TypesInfo.ObjectOf(fn).(*types.Func)
+				case *ast.SelectorExpr:
+					fo, _ = pk.TypesInfo.ObjectOf(fn.Sel).(*types.Func)
+				}
+				return fo != nil && builders[fo.Origin()]
+			}
+			if isBuilderCall(k) {
+				return "prefixed"
+			}
+			if id, ok := k.(*ast.Ident); ok {
+				ds := f.defs[pk.TypesInfo.ObjectOf(id)]
+				if len(ds) == 1 && len(ds[0].rhs) == 1 && isBuilderCall(ds[0].rhs[0]) {
+					return "prefixed"
+				}
+			}
+			return "other"
+		}
+		record := func(m ast.Expr, key ast.Expr, pos token.Pos) {
+			se, ok := ast.Unparen(m).(*ast.SelectorExpr)
+			if !ok {
+				return
+			}
+			v, ok := pk.TypesInfo.ObjectOf(se.Sel).(*types.Var)
+			if !ok || !v.IsField() {
+				return
+			}
+			if _, isMap := v.Type().Underlying().(*types.Map); !isMap {
+				return
+			}
+			bt := pk.TypesInfo.TypeOf(se.X)
+			if p, ok := bt.(*types.Pointer); ok {
+				bt = p.Elem()
+			}
+			nt, ok := bt.(*types.Named)
+			if !ok || cts[nt.Obj().Name()] != nt {
+				return
+			}
+			k := nt.Obj().Name() + "." + v.Name()
+			accs[k] = append(accs[k], acc{pos, classify(key), types.ExprString(key), FuncKey(fd.Obj)})
+		}
+		ast.Inspect(fd.Decl.Body, func(n ast.Node) bool {
+			switch x := n.(type) {
+			case *ast.IndexExpr:
+				record(x.X, x.Index, x.Pos())
+			case *ast.CallExpr:
+				if id, ok := x.Fun.(*ast.Ident); ok && id.Name == "delete" && len(x.Args) == 2 {
+					record(x.Args[0], x.Args[1], x.Pos())
+				}
+			}
+			return true
+		})
+	}
+	n := 0
+	for _, k := range sortedKeys(accs) {
+		as := accs[k]
+		cnt := map[string]int{}
+		for _, a := range as {
+			cnt[a.shape]++
+			n++
+		}
+		if cnt["stripped"] > 0 && cnt["prefixed"] > 0 {
+			minority := "prefixed"
+			if cnt["stripped"] < cnt["prefixed"] {
+				minority = "stripped"
+			}
+			i := 0
+			for _, a := range as {
+				if a.shape == minority {
+					i++
+					c.Fail(fmt.Sprintf("%s.%s#%d", k, a.fn, i), c.P.Pos(a.pos), fmt.Sprintf("%s is keyed without the storage prefix elsewhere (%d accessors strip it) but %s uses the whole prefixed key %s here: the lookup/delete never matches, so the cache keeps an entry that storage no longer has (running and restarted nodes diverge)", k, cnt["stripped"], a.fn, a.expr))
+				}
+			}
+		} else {
+			c.OK(k, natPkg, fmt.Sprintf("%d keyed accesses, key shapes consistent (%v)", len(as), cnt))
+		}
+	}
+	c.Floor("keyed accesses of cache maps", n, 8)
+}
+
+// ---------------------------------------------------------------------------
+// derived-invalidation: inputs of a lazily recomputed cache value set its dirty flag
+
+func ruleDerivedInvalidation(c *Ctx) {
+	pk := c.P.Pkg(natPkg)
+	if pk == nil {
+		c.Lost("anchor", "package native not found")
+		return
+	}
+	cts := cacheTypes(c)
+	root := c.P.Func(natPkg, "NEO", "computeCommitteeMembers")
+	pp := c.P.Func(natPkg, "NEO", "PostPersist")
+	if root == nil || pp == nil {
+		c.Lost("anchor", "NEO.computeCommitteeMembers / PostPersist not found")
+		return
+	}
+	flag := "pkg/core/native#votesChanged"
+	// the recomputation is skipped unless the flag is set: the flag test must exist in PostPersist
+	ppf := c.P.NewFuncCFG(pp)
+	guarded := false
+	for _, b := range ppf.G.Blocks {
+		if cnd := ppf.Cond(b); cnd != nil && ppf.DirectMentions(cnd)[flag] {
+			guarded = true
+		}
+	}
+	if !guarded {
+		c.Note("PostPersist no longer tests votesChanged: committee is recomputed unconditionally, nothing to check")
+		c.OK("flag-guard", c.P.Pos(pp.Decl.Pos()), "committee recomputation is not conditional on a dirty flag")
+		return
+	}
+	g := c.P.MRG()
+	rfn := c.P.SSAFunc(root.Obj)
+	via := g.Reach([]*ssa.Function{rfn}, func(e *MEdge) bool {
+		// stay inside the native package and follow calls only (function values merely referenced are not executed here)
+		cf := e.Callee.Fn
+		for cf.Parent() != nil {
+			cf = cf.Parent()
+		}
+		return e.Kind == "ref" || cf.Pkg == nil || pkgRel(cf.Pkg.Pkg) != natPkg
+	})
+	// cache fields read inside the derivation, other than NeoCache's own derived values
+	sources := map[string]string{} // field symbol -> "Type.field"
+	for fn := range via {
+		for _, b := range fn.Blocks {
+			for _, ins := range b.Instrs {
+				fa, ok := ins.(*ssa.FieldAddr)
+				if !ok {
+					continue
+				}
+				t := fa.X.Type()
+				if p, ok := t.Underlying().(*types.Pointer); ok {
+					t = p.Elem()
+				}
+				nt, ok := t.(*types.Named)
+				if !ok || cts[nt.Obj().Name()] != nt {
+					continue
+				}
+				st := nt.Underlying().(*types.Struct)
+				fld := st.Field(fa.Field)
+				sources[symOf(fld)] = nt.Obj().Name() + "." + fld.Name()
+			}
+		}
+	}
+	c.Floor("cache fields read by the committee computation", len(sources), 1)
+	ws := c.P.PkgWriteSummary(natPkg)
+	nw := 0
+	// functions that run during block execution (handlers, OnPersist/PostPersist, Initialize hooks): only their
+	// writes are state changes; cache (re)builders reachable only from InitializeCache run at start-up, where the
+	// NEO cache is created with the flag set
+	exec := g.Reach(c.P.HandlerRoots(), nil)
+	for _, sym := range sortedKeys(sources) {
+		if strings.HasPrefix(sources[sym], "NeoCache.") {
+			continue // NEO's own fields: written by the NEO functions that maintain the flag (vote bookkeeping)
+		}
+		var writers []*types.Func
+		for fo, d := range ws.Direct {
+			if len(d[sym]) > 0 {
+				writers = append(writers, fo)
+			}
+		}
+		sort.Slice(writers, func(i, j int) bool { return FuncKey(writers[i]) < FuncKey(writers[j]) })
+		for _, w := range writers {
+			fd := c.P.DeclOf(w)
+			if fd == nil {
+				continue
+			}
+			// builders of a fresh cache (InitializeCache, Copy helpers) are not state changes
+			fresh := true
+			for _, wr := range nodeWrites(pk.TypesInfo, fd.Decl.Body, true) {
+				if wr.Field != sym {
+					continue
+				}
+				var lhs ast.Expr
+				if as, ok := wr.Node.(*ast.AssignStmt); ok {
+					for _, l := range as.Lhs {
+						if l.Pos() <= wr.Pos && wr.Pos <= l.End() {
+							lhs = l
+						}
+					}
+				}
+				ro := rootObj(pk.TypesInfo, lhs)
+				isFresh := false
+				if ro != nil {
+					f := c.P.NewFuncCFG(fd)
+					for _, d := range f.allDefs(fd.Decl.Body, ro) {
+						s := types.ExprString(d)
+						if strings.HasPrefix(s, "&") || strings.Contains(s, "new(") {
+							isFresh = true
+						}
+					}
+					if f.params[ro] && (fd.Decl.Name.Name == "copy"+strings.Split(sources[sym], ".")[0] || strings.HasPrefix(fd.Decl.Name.Name, "copy")) {
+						isFresh = true
+					}
+				}
+				if !isFresh {
+					fresh = false
+				}
+			}
+			if fresh {
+				continue
+			}
+			if wf := c.P.SSAFunc(w); wf != nil {
+				if _, inExec := exec[wf]; !inExec {
+					anon := false
+					for _, af := range wf.AnonFuncs {
+						if _, ok := exec[af]; ok {
+							anon = true
+						}
+					}
+					if !anon {
+						continue
+					}
+				}
+			}
+			nw++
+			sets := ws.Trans[w][flag]
+			key := "writer." + sources[sym] + "." + FuncKey(w)
+			if sets {
+				c.OK(key, c.P.Pos(fd.Decl.Pos()), FuncKey(w)+" changes "+sources[sym]+" (an input of the committee computation) and marks the NEO cache dirty")
+			} else {
+				c.Fail(key, c.P.Pos(fd.Decl.Pos()), fmt.Sprintf("%s changes %s, which NEO.computeCommitteeMembers reads, without setting NeoCache.votesChanged: a running node skips the recomputation at the epoch boundary while a restarted node (InitializeCache sets the flag) performs it — committee and state roots diverge", FuncKey(w), sources[sym]))
+			}
+		}
+	}
+	c.Floor("state-changing writers of foreign inputs", nw, 1)
+	// NEO's own inputs: a change of a candidate's registration state (announced by the CandidateStateChanged event)
+	// marks the cache dirty on every path that announces it
+	nev := 0
+	for _, fd := range c.P.AllFuncDecls() {
+		if fd.Pkg != pk || fd.Decl.Body == nil {
+			continue
+		}
+		f := c.P.NewFuncCFG(fd)
+		var ev []site
+		for _, s := range f.CallSites("pkg/core/interop.(*Context).AddNotification") {
+			if len(s.call.Args) >= 2 {
+				if tv := pk.TypesInfo.Types[s.call.Args[1]]; tv.Value != nil && strings.Contains(tv.Value.String(), "CandidateStateChanged") {
+					ev = append(ev, s)
+				}
+			}
+		}
+		if len(ev) == 0 {
+			continue
+		}
+		nev += len(ev)
+		ok, path, n := f.CheckMustNode(f.Entry(), blocksOf(ev), nil, flag)
+		key := "candidate-state." + FuncKey(fd.Obj)
+		if ok && n > 0 {
+			c.OK(key, c.P.Pos(ev[0].call.Pos()), "every path announcing a candidate state change sets votesChanged first")
+		} else {
+			c.Fail(key, c.P.Pos(ev[0].call.Pos()), FuncKey(fd.Obj)+" announces CandidateStateChanged on a path that does not set NeoCache.votesChanged: the next-epoch committee is not recomputed by a running node but is by a restarted one", path...)
+		}
+	}
+	c.Floor("CandidateStateChanged emission sites", nev, 2)
 }
